@@ -2,7 +2,7 @@ mod list_and_cleanup;
 mod numbers;
 mod timestamps;
 
-pub(crate) use timestamps::timestamp_from_ts_infix;
+pub(crate) use timestamps::is_timestamp_infix;
 
 use super::{
     config::{FileLogWriterConfig, RotationConfig},
